@@ -545,11 +545,37 @@ def generate(repo='/repo'):
     return text + generate_from_angles(tree) + '\n' + '\n'.join(generate_ufunc(tree)) + '\n'
 
 
+STRING_PINS = {'_parse_string': 'e692a51334fabe0019c35a3713864569', '__repr__': 'b0659ca355e4b0afc95875a66b064b20',
+               '__str__': 'd0e656be111b957a1253bbd0c05d55f6', '__format__': 'cc8934ef622fda5f87d0251034f07a16',
+               'to_string': '7ecfc4595c8662001c8445c9eeec8cdf', 'from_string': '1ba41fd05f6a4456b951466f496cc16b'}
+
+
+def generate_strings(tree):
+    """the decimal I/O of Phase (character-exact model Model/DecStr.v): whole-function pins by syntax-tree hash"""
+    import os
+    sys.path.insert(0, os.path.dirname(os.path.dirname(os.path.abspath(__file__))))
+    from translate.pinhash import fn_hash
+    found = {}
+    for n in tree.body:
+        if isinstance(n, ast.FunctionDef) and n.name in STRING_PINS:
+            found[n.name] = fn_hash(n)
+        if isinstance(n, ast.ClassDef) and n.name == 'Phase':
+            for m in n.body:
+                if isinstance(m, ast.FunctionDef) and m.name in STRING_PINS:
+                    found[m.name] = fn_hash(m)
+    out = []
+    for k, h in STRING_PINS.items():
+        if k not in found:
+            raise Unsupported('phase.py: ' + k + ' not found')
+        out.append(f'Definition gen_str_{k.strip("_")}_as_modelled : bool := {"true" if found[k] == h else "false"}.')
+    return out
+
+
 def generate_ord(repo='/repo'):
     tree = ast.parse(pathlib.Path(repo, 'pulsarbat', 'pulsar', 'phase.py').read_text())
     head = ['(* GENERATED by translate/py_float2coq.py from pulsar/phase.py (divmod branch, ordering methods) -- do not edit *)',
             'From Coq Require Import ZArith Bool List PrimFloat.', 'From PB Require Import Model.Phase2 Model.PhaseDivmod Model.PhaseOrd.', 'Open Scope float_scope.']
-    return '\n'.join(head + [generate_divmod(tree)] + generate_order(tree)) + '\n'
+    return '\n'.join(head + [generate_divmod(tree)] + generate_order(tree) + generate_strings(tree)) + '\n'
 
 
 if __name__ == '__main__':
